@@ -73,7 +73,8 @@ pub fn oracle_roundtrip(w: &mut Worker, case: &Case) -> Vec<Violation> {
         v.push(Violation { class: format!("roundtrip:recompile-failed:{}", tool), detail: format!("decompile succeeded silently ({}), but: {}", case.steps[dec].argv.join(" "), short(&c.stderr, 500)) });
         return v;
     }
-    match c.files.get(scen::OUT2) {
+    let out_file = case.meta.get("out_file").and_then(|x| x.as_str()).unwrap_or(scen::OUT2);
+    match c.files.get(out_file) {
         Some(b) if *b == original => w.stats.probe("roundtrip:identical"),
         Some(b) => {
             let first = b.iter().zip(original.iter()).position(|(x, y)| x != y).unwrap_or(b.len().min(original.len()));
@@ -131,6 +132,19 @@ pub fn run(ctx: &Ctx) -> CheckResult {
             }
         }
     }
+    // ---- (1b) recompiling in place: the output path is the image source itself
+    for item in ctx.corpus.binaries().filter(|b| b.cmd == "truanm") {
+        let mut c = scen::binary_roundtrip_case(item, &[], None, true);
+        let path = item.path.clone().unwrap();
+        if let Some(p) = c.steps[1].argv.iter().position(|a| a == "-o") {
+            c.steps[1].argv[p + 1] = path.clone();
+        }
+        c.name = format!("{} [recompiled in place: -o is the image source]", c.name);
+        c.property = "C01".into();
+        c.oracle = "roundtrip".into();
+        c.meta = json!({"orig_step": null, "orig_file": path, "dec": 0, "comp": 1, "item": item.id, "out_file": path});
+        cases.push(c);
+    }
     // ---- (2) compiler outputs of the corpus
     for item in scen::source_items(&ctx.corpus) {
         if item.tags.iter().any(|t| t == "no-roundtrip") {
@@ -163,7 +177,17 @@ pub fn run(ctx: &Ctx) -> CheckResult {
         c.meta = json!({"stale": [scen::DEC, scen::OUT2]});
         stale_cases.push(c);
     }
-    let (_r, st_s, f_s, h_s) = par_map(ctx, &stale_cases, |w, _, c| w.judge(c));
+    let (_r, st_s, f_s, h_s) = par_map(ctx, &stale_cases, |w, _, c| {
+        w.judge(c);
+        let mut fresh = c.clone();
+        fresh.inputs.retain(|i| i.path != scen::DEC && i.path != scen::OUT2);
+        fresh.name = fresh.name.replace(" [stale outputs]", "");
+        for empty in [false, true] {
+            if let Some(pc) = prefix_stale_case(w, &fresh, empty) {
+                w.judge(&pc);
+            }
+        }
+    });
     stats.merge(st_s);
     findings.extend(f_s);
     herr.extend(h_s);
